@@ -68,9 +68,15 @@ class Budget(Exception):
     pass
 
 
+SPLIT_COMBINATORS = {'map', 'and_then', 'map_err', 'or_else', 'unwrap_or', 'unwrap_or_else', 'ok_or', 'ok_or_else', 'map_or', 'ok', 'err'}
+
+
 class Fork:
-    def __init__(self, values):
+    def __init__(self, values, alts=None):
+        """values: alternative results; alts (optional, parallel to values): (extra effect, (decided key, decision)) per alternative;
+        a value may itself be ('paths', [...])"""
         self.values = list(values)
+        self.alts = alts
 
 
 class Stop:
@@ -103,7 +109,7 @@ def fmt(v, depth=0):
     if k == 'sym':
         return '$' + v[1]
     if k == 'app':
-        return '%s(%s)' % (v[1].split('::<')[0].split('::')[-1] if depth > 2 else v[1], ', '.join(fmt(x, depth + 1) for x in v[2]))
+        return '%s(%s)' % (v[1], ', '.join(fmt(x, depth + 1) for x in v[2]))
     if k == 'proj':
         return '%s.%s' % (fmt(v[1], depth + 1), '.'.join(str(p) for p in v[2]))
     if k == 'fn':
@@ -113,8 +119,73 @@ def fmt(v, depth=0):
     return '?'
 
 
+def _pj(a, path):
+    return ('proj', a[1], a[2] + path) if a[0] == 'proj' else ('proj', a, path)
+
+
+def P_OK(a):
+    """payload of an opaque Result `a` on its Ok side (the term a `match` / `?` / combinator produces)"""
+    return _pj(a, ('as Ok', '0'))
+
+
+def P_ERR(a):
+    return _pj(a, ('as Err', '0'))
+
+
+def P_SOME(a):
+    return _pj(a, ('as Some', '0'))
+
+
+def expand_results(rets):
+    """canonical form of a set of returned Result values: an opaque Result x is the pair Ok(P_OK(x)) / Err(P_ERR(x)), so that
+    `f(x)` in tail position, `Ok(f(x)?)` and `match f(x) { Ok(v) => Ok(v), Err(e) => Err(e) }` compare equal"""
+    out = []
+    for r in rets:
+        if r[0] in ('app', 'proj', 'sym'):
+            out += [OK(P_OK(r)), ERR(P_ERR(r))]
+        else:
+            out.append(r)
+    return out
+
+
+def apps(v, out=None):
+    """all application terms inside an abstract value: list of (name, args)"""
+    if out is None:
+        out = []
+    if v[0] == 'app':
+        out.append((v[1], v[2]))
+        for x in v[2]:
+            if isinstance(x, tuple):
+                apps(x, out)
+    elif v[0] == 'adt':
+        for x in v[4]:
+            apps(x, out)
+    elif v[0] == 'tuple':
+        for x in v[1]:
+            apps(x, out)
+    elif v[0] == 'proj':
+        apps(v[1], out)
+    return out
+
+
+def has_subterm(v, sub):
+    """structural containment of the abstract value `sub` in `v` (never compare formatted strings for this)"""
+    if v == sub:
+        return True
+    k = v[0]
+    if k == 'adt':
+        return any(has_subterm(x, sub) for x in v[4])
+    if k == 'tuple':
+        return any(has_subterm(x, sub) for x in v[1])
+    if k == 'app':
+        return any(has_subterm(x, sub) for x in v[2] if isinstance(x, tuple))
+    if k == 'proj':
+        return has_subterm(v[1], sub)
+    return False
+
+
 class Interp:
-    def __init__(self, prog, hook=None, max_steps=200000, max_depth=6, loop_bound=2, opaque=None, record_backedge=False):
+    def __init__(self, prog, hook=None, max_steps=200000, max_depth=6, loop_bound=2, opaque=None, record_backedge=False, split_opaque=True):
         """hook(interp, fn, term, args) -> None | value | Fork([...]); opaque: predicate on callee Fn -> do not descend"""
         self.prog = prog
         self.hook = hook
@@ -125,6 +196,7 @@ class Interp:
         self.steps = 0
         self.serial = 0
         self.record_backedge = record_backedge
+        self.split_opaque = split_opaque
 
     # -- values of places / operands
     def place_val(self, env, pl):
@@ -300,6 +372,26 @@ class Interp:
                     env['__vec_last'] = {k: v for k, v in vl.items() if k not in mut_args}
             if name in ('unwrap', 'expect') and args and is_adt(args[0], 'option::Option', 'Some') and 'option::Option' in d:
                 return args[0][4][0], args
+            # std slice / Vec facts on a concrete element list
+            if args and args[0][0] == 'tuple' and ('slice' in d or 'vec::Vec' in d or path_endswith(tr, 'convert::Into') or path_endswith(tr, 'convert::From') or path_endswith(tr, 'ops::Index')):
+                el = args[0][1]
+                if len(args) == 1:
+                    if name == 'len':
+                        return C(len(el)), args
+                    if name == 'is_empty':
+                        return C(len(el) == 0), args
+                    if name in ('first', 'first_mut'):
+                        return (SOME(el[0]) if el else NONE), args
+                    if name in ('last', 'last_mut'):
+                        return (SOME(el[-1]) if el else NONE), args
+                    if name in ('to_vec', 'into_vec', 'into', 'from', 'as_slice', 'as_mut_slice'):
+                        return args[0], args
+                if len(args) == 2 and args[1][0] == 'c' and isinstance(args[1][1], int) and not isinstance(args[1][1], bool):
+                    i = args[1][1]
+                    if name in ('get', 'get_mut'):
+                        return (SOME(el[i]) if 0 <= i < len(el) else NONE), args
+                    if name in ('index', 'index_mut') and 0 <= i < len(el):
+                        return el[i], args
             # iteration over a concrete element list (vec/slice of known elements): exact, path-local cursor
             if name in ('into_iter', 'iter') and len(args) == 1 and args[0][0] == 'tuple':
                 self.serial += 1
@@ -319,6 +411,33 @@ class Interp:
             r_ = self._combinator(fn, name, args, depth)
             if r_ is not None:
                 return r_, args
+        if not c.get('local') and ('option::Option' in d or 'result::Result' in d) and len(args) == 1 and name in ('cloned', 'copied', 'as_ref', 'as_mut', 'as_deref', 'as_deref_mut'):
+            return args[0], args
+        # ... and on opaque values: case split on the receiver's variant, exactly as the equivalent `match` would do, so that
+        # `x.ok_or_else(f)` / `x.map(g)` and the hand-written match give the same set of paths
+        if not c.get('local') and ('option::Option' in d or 'result::Result' in d) and args and args[0][0] in ('sym', 'app', 'proj') \
+                and name in SPLIT_COMBINATORS and depth < self.max_depth and self.split_opaque:
+            v = args[0]
+            is_opt = 'option::Option' in d
+            dkey = ('app', 'discriminant', (v,))
+            decided = env.get('__decided') or {}
+            prev = decided.get(dkey)
+
+            def pr(vn):
+                return self.project(v, [dict(dc=vn, name=vn), dict(f=0, name='0')])
+            variants = [(0, NONE), (1, SOME(pr('Some')))] if is_opt else [(0, OK(pr('Ok'))), (1, ERR(pr('Err')))]
+            vals, alts = [], []
+            for idx, known in variants:
+                if prev is not None and ((prev[0] == 'is' and prev[1] != idx) or (prev[0] == 'not' and idx in prev[1])):
+                    continue
+                r_ = self._combinator(fn, name, [known] + list(args[1:]), depth)
+                if r_ is None:
+                    vals = None
+                    break
+                vals.append(r_)
+                alts.append((('<branch>', None, (dkey, C(idx)), t['span']), (dkey, ('is', idx))))
+            if vals:
+                return Fork(vals, alts), args
         # structural equality
         if path_endswith(tr, 'cmp::PartialEq') and name in ('eq', 'ne') and len(args) == 2:
             a, b = args
@@ -339,9 +458,23 @@ class Interp:
                 if a[3] == 'Some':
                     return ADT('std::ops::ControlFlow', 0, 'Continue', [a[4][0]]), args
                 return ADT('std::ops::ControlFlow', 1, 'Break', [NONE]), args
-            # opaque Result: case split, remembering where the payloads came from
-            return Fork([ADT('std::ops::ControlFlow', 0, 'Continue', [('proj', a, ('ok',))]),
-                         ADT('std::ops::ControlFlow', 1, 'Break', [ERR(('proj', a, ('err',)))])]), args
+            # opaque Result / Option: case split (consistent with earlier decisions on the same value), remembering where the
+            # payloads came from; the payload terms are those a `match` on the value would produce
+            ga = c.get('args') or []
+            is_opt = bool(ga) and 'option::Option<' in ga[0].split('<')[0] + '<'
+            dkey = ('app', 'discriminant', (a,))
+            prev = (env.get('__decided') or {}).get(dkey)
+            if is_opt:
+                variants = [(1, ADT('std::ops::ControlFlow', 0, 'Continue', [P_SOME(a)])), (0, ADT('std::ops::ControlFlow', 1, 'Break', [NONE]))]
+            else:
+                variants = [(0, ADT('std::ops::ControlFlow', 0, 'Continue', [P_OK(a)])), (1, ADT('std::ops::ControlFlow', 1, 'Break', [ERR(P_ERR(a))]))]
+            vals, alts = [], []
+            for idx, val in variants:
+                if prev is not None and ((prev[0] == 'is' and prev[1] != idx) or (prev[0] == 'not' and idx in prev[1])):
+                    continue
+                vals.append(val)
+                alts.append((('<branch>', None, (dkey, C(idx)), t['span']), (dkey, ('is', idx))))
+            return Fork(vals, alts), args
         if path_endswith(tr, 'ops::FromResidual') and name == 'from_residual' and len(args) == 1:
             return args[0], args
         if (path_endswith(tr, 'convert::Into') and name == 'into' or path_endswith(tr, 'convert::From') and name == 'from') and len(args) == 1:
@@ -541,11 +674,24 @@ class Interp:
                     out.append((('stop', res.value), effects + (eff,)))
                     return
                 elif isinstance(res, Fork):
-                    for val in res.values:
+                    for i, val in enumerate(res.values):
                         env2 = dict(env)
-                        if not t['dest']['p']:
-                            env2[t['dest']['l']] = val
-                        self._run(fn, t['target'], env2, depth, out, effects + (eff,), dict(edges))
+                        effs = effects + (eff,)
+                        if res.alts is not None:
+                            beff, (dk, dec) = res.alts[i]
+                            effs = effs + (beff,)
+                            nd = dict(env2.get('__decided') or {})
+                            nd[dk] = dec
+                            env2['__decided'] = nd
+                        subs = val[1] if (isinstance(val, tuple) and val and val[0] == 'paths') else [(val, ())]
+                        for sval, seff in subs:
+                            if sval == ('diverge',):
+                                out.append((('diverge',), effs + seff))
+                                continue
+                            env3 = dict(env2)
+                            if not t['dest']['p']:
+                                env3[t['dest']['l']] = sval
+                            self._run(fn, t['target'], env3, depth, out, effs + seff, dict(edges))
                     return
                 else:
                     effects = effects + (eff,)
